@@ -136,6 +136,7 @@ type Frame struct {
 	mods    []modEntry
 	lockObjs []*LVal
 	noInline bool
+	ghosts   map[string]string
 	curBlock *ssa.BasicBlock
 	sites   map[*ssa.Function]int
 	siteN   map[string]int
